@@ -363,16 +363,21 @@ type obs struct {
 	Truncated bool // more than the read bound was available
 }
 
-// observe runs modify on res and reads the resulting body (at most limit bytes).
-func observe(res *http.Response, modify func(*http.Response) error, limit int64) (o obs) {
-	func() {
-		defer func() {
-			if r := recover(); r != nil {
-				o.Panic = fmt.Sprint(r)
-			}
-		}()
-		o.Err = modify(res)
+// produce runs modify on res and records what it returned; the body is left
+// unread (readBody does that, possibly much later).
+func produce(res *http.Response, modify func(*http.Response) error) (o obs) {
+	defer func() {
+		if r := recover(); r != nil {
+			o.Panic = fmt.Sprint(r)
+		}
 	}()
+	o.Err = modify(res)
+	return o
+}
+
+// readBody completes an observation: status, headers and at most limit bytes
+// of the body of res as they are now.
+func readBody(o obs, res *http.Response, limit int64) obs {
 	if o.Panic != "" {
 		return o
 	}
@@ -392,6 +397,11 @@ func observe(res *http.Response, modify func(*http.Response) error, limit int64)
 		}()
 	}
 	return o
+}
+
+// observe runs modify on res and reads the resulting body (at most limit bytes).
+func observe(res *http.Response, modify func(*http.Response) error, limit int64) obs {
+	return readBody(produce(res, modify), res, limit)
 }
 
 // ---------------------------------------------------------------- judge
